@@ -211,6 +211,18 @@ DEFAULT_GROUPS = {
         ("i", "[String!]!", ["str", "x"]),
         ("j", "[Float]", ["float", "1.5"]),
     ],
+    # custom-scalar string values that are ALMOST Int literals (the string must stay that string)
+    "scalar-almost-int": [
+        ("a", "Date", ["str", "00501"]),
+        ("b", "Date", ["str", "+5"]),
+        ("c", "Date", ["str", "1_000"]),
+        ("d", "Date", ["str", " 5"]),
+        ("e", "Date", ["str", "5 "]),
+        ("f", "Date", ["str", "-0"]),
+        ("g", "Date", ["str", "0"]),
+        ("h", "Date", ["str", "-12"]),
+        ("i", "[Date]", ["list", [["str", "007"], ["str", "7"]]]),
+    ],
     "string": [
         ("a", "String", ["str", "abc"]),
         ("b", "String", ["str", 'q"uo\\te']),
@@ -250,7 +262,7 @@ def ensure_list_single(sm):
     sm["directives"].append(_dir("single", ["FIELD"], [mk_ival("xs", "[Inp]", default=["obj", [["k", I(1)]]]), mk_ival("n", "[[Int]]", default=I(1)), mk_ival("c", "[Color!]", default=["enum", "BLUE"])]))
 
 
-_NEEDS = {"list-single": ensure_list_single, "float-precise": ensure_float_input, "enum": ensure_enum, "obj": ensure_input, "scalar": ensure_scalar, "scalar-numstr": ensure_scalar}
+_NEEDS = {"scalar-almost-int": ensure_scalar, "list-single": ensure_list_single, "float-precise": ensure_float_input, "enum": ensure_enum, "obj": ensure_input, "scalar": ensure_scalar, "scalar-numstr": ensure_scalar}
 
 
 def _f_default(group):
@@ -366,6 +378,17 @@ def f_dir_def(sm):
     sm["directives"].append(
         _dir("foo", ["FIELD_DEFINITION", "OBJECT"], [mk_ival("x", "Int", default=I(1)), mk_ival("y", "[String!]"), mk_ival("z", "String", default=["str", 'd"q'])])
     )
+
+
+def f_dir_same_name(sm):
+    """a directive and a type with the SAME name (separate namespaces: legal), the directive applied too"""
+    sm["directives"].append(_dir("Auth", ["FIELD_DEFINITION", "OBJECT"], [mk_ival("role", "String", default=["str", "user"])]))
+    t = mk_type("object", "Auth", fields=[mk_field("token", "String", applied=[["Auth", [["role", ["str", "admin"]]]]])])
+    t["applied"].append(["Auth", []])
+    _add_type(sm, t)
+    _add_type(sm, mk_type("enum", "foo", values=["X"]))  # also same as the directive @foo of dir:def / dir:foo
+    _qfield(sm, mk_field("auth", "Auth"))
+    _qfield(sm, mk_field("fooEnum", "foo"))
 
 
 def f_dir_exec(sm):
@@ -688,7 +711,7 @@ for _i, _w in enumerate(WRAPPERS):
 # large, self-contained features: enumerated alone and with a few carriers only (see feature_sets)
 _reg("w:deep", f_wrap_deep, extra=["k:enum", "k:input", "desc:one"])
 for _g in DEFAULT_GROUPS:
-    _reg("d:" + _g, _f_default(_g), extra=(["k:input", "dir:def", "desc:one"] if _g in ("float-precise", "list-single") else None))
+    _reg("d:" + _g, _f_default(_g), extra=(["k:input", "dir:def", "desc:one"] if _g in ("float-precise", "list-single", "scalar-almost-int") else None))
 _reg("d:nested-defaults", f_nested_defaults, extra=["k:enum", "k:input", "dir:applied"])
 _reg("dep:field", f_dep_field)
 _reg("dep:enum", f_dep_enum)
@@ -697,6 +720,7 @@ _reg("dep:all", f_dep_all)
 _reg("dep:iface", f_dep_iface)
 _reg("dir:def", f_dir_def)
 _reg("dir:exec", f_dir_exec)
+_reg("dir:same-name", f_dir_same_name, extra=["dir:def", "dir:foo", "dir:applied"])
 _reg("dir:vardef", f_dir_vardef)
 _reg("dir:input", f_dir_input)
 _reg("rec:obj", f_rec_obj)
